@@ -27,9 +27,25 @@ def main(argv):
         traceback.print_exc()
         print("no check for %s" % prop, file=sys.stderr)
         return 2
+    rerun = None
+    if a.replay and not hasattr(mod, "replay"):
+        # Checks without a case-level replay re-run themselves with the seed and tier recorded in the replay file (every
+        # choice is a function of the seed): the recorded violation shows again exactly when the defect is still there.
+        import json
+        try:
+            with open(a.replay) as f:
+                rerun = json.load(f)
+        except (OSError, ValueError) as e:
+            print("MACHINERY FAILURE (not a verdict): cannot read replay file: %s" % e, file=sys.stderr)
+            return 2
+        seed = int(rerun.get("seed", seed))
+        a.tier = rerun.get("tier") or a.tier
     chk = Check(prop, a.tier, seed, level=getattr(mod, "LEVEL", "model_checking"))
     try:
-        if a.replay:
+        if rerun is not None:
+            print("replay: re-running %s --tier %s with seed %d (recorded violation: %s)" % (prop, a.tier, seed, rerun.get("key")), file=sys.stderr)
+            mod.run(chk, only=None)
+        elif a.replay:
             mod.replay(chk, a.replay)
         else:
             only = set(a.only.split(",")) if a.only else None
